@@ -40,6 +40,24 @@ func RunHistory(i int, withKnown bool) HistResult {
 	input := fmt.Sprintf("history #%d (vh.NewRand(%d)): %s", i, caseRand(i), res.Key)
 	w := NewWorld(h)
 	var helds []Held
+	changed := map[int]bool{} // held values already reported
+	// recheck re-reads every value handed out so far and compares it with the
+	// deep copy taken at hand-out time ("values handed to the caller never
+	// change after later API calls": after EVERY later call, live or on the
+	// fresh objects of the oracle — those are "other Schema objects" too).
+	recheck := func(when string) {
+		for i, hd := range helds {
+			if changed[i] {
+				continue
+			}
+			if now := vh.Recover(hd.Reread); now != hd.Snap {
+				changed[i] = true
+				res.Diffs = append(res.Diffs, vh.Diff{Component: "C11-stable", Input: input,
+					Impl:  fmt.Sprintf("value handed out by %s reads %q %s", hd.Desc, now, when),
+					Model: fmt.Sprintf("unchanged since the call: %q", hd.Snap), Class: h.KnownClass(len(h.Ops))})
+			}
+		}
+	}
 	var tr strings.Builder
 	uses := map[int]int{}
 	stat := func(s string) { res.Stats = append(res.Stats, s) }
@@ -48,8 +66,16 @@ func RunHistory(i int, withKnown bool) HistResult {
 		if op.Code == OpNew {
 			continue
 		}
+		recheck(fmt.Sprintf("after op #%d %s", k, h.OpText(op)))
+		for i := range hd {
+			hd[i].Desc = fmt.Sprintf("op #%d %s", k, hd[i].Desc)
+		}
 		helds = append(helds, hd...)
 		want := h.Oracle(k)
+		recheck(fmt.Sprintf("after op #%d %s was repeated on fresh objects (%s)", k, h.OpText(op), opsText(h, append(h.Replay(k), op))))
+		if op.Code == OpExample && h.Objs[op.Obj].Kind == KSchema && strings.HasSuffix(got, " ok") {
+			stat("example_ok_" + exampleKind(got))
+		}
 		tr.WriteString(got)
 		tr.WriteString("\n")
 		tr.WriteString(want)
@@ -79,16 +105,11 @@ func RunHistory(i int, withKnown bool) HistResult {
 				Class: h.KnownClass(k)})
 		}
 	}
+	recheck("at the end of the history")
 	for _, hd := range helds {
-		now := vh.Recover(hd.Reread)
 		if !strings.HasSuffix(hd.Desc, "error value") { // message text is not a compared result ("Required key" lists keys in map order)
-			tr.WriteString(CanonPtr(now))
+			tr.WriteString(CanonPtr(vh.Recover(hd.Reread)))
 			tr.WriteString("\n")
-		}
-		if now != hd.Snap {
-			res.Diffs = append(res.Diffs, vh.Diff{Component: "C11-stable", Input: input,
-				Impl:  fmt.Sprintf("value handed out by %s reads %q at the end of the history", hd.Desc, now),
-				Model: fmt.Sprintf("unchanged since the call: %q", hd.Snap), Class: h.KnownClass(len(h.Ops))})
 		}
 	}
 	stat(fmt.Sprintf("held_values_%02d", imin(len(helds), 20)))
@@ -120,6 +141,22 @@ func RunHistory(i int, withKnown bool) HistResult {
 	d := sha1.Sum([]byte(res.Transcript))
 	res.Digest = vh.Hex(d[:8])
 	return res
+}
+
+// exampleKind: the kind of the value an Example() result starts with.
+func exampleKind(res string) string {
+	if len(res) < 3 {
+		return "empty"
+	}
+	switch res[1] {
+	case '[':
+		return "array"
+	case '{':
+		return "object"
+	case '\\':
+		return "string"
+	}
+	return "scalar"
 }
 
 func opsText(h *History, ops []Op) string {
@@ -242,12 +279,13 @@ func Run(args []string) {
 		return
 	}
 	rep := vh.NewReport("c11-history",
-		"histories of <= 12 public operations (object creations not counted) over 1..3 root schemas drawn from a pool of "+fmt.Sprint(len(Roots()))+" root texts + "+fmt.Sprint(len(Schemas)-len(Roots()))+" "+
+		"histories of <= 12 public operations (object creations not counted) over 1..3 root schemas drawn from a pool of "+fmt.Sprint(len(AllRoots()))+" root texts + "+fmt.Sprint(len(Schemas)-len(AllRoots()))+" "+
 			"user-type texts (valid, syntactically / semantically invalid, failing in an added type, enum rules, regex types, allOf, or, key "+
-			"shortcuts, recursion, self-added type), their AddRule/AddType set-up interleaved with Check/Validate/Len/Example/GetAST/"+
-			"UsedUserTypes, late AddType/AddRule, "+fmt.Sprint(len(Docs))+" documents incl. malformed / trailing bytes (Check/Len/NextLexeme, Check before Validate on one object), 6 enum rules, 6 regex types; type, rule and document "+
+			"shortcuts, recursion, self-added type; every ROOT KIND: scalar of each kind, array empty / of scalars / of objects / nested / of references, "+
+			"empty object, type-shortcut roots @t and or-shortcut roots @a | @b resolving to each kind, or-rule roots), their AddRule/AddType set-up interleaved with Check/Validate/Len/Example/GetAST/"+
+			"UsedUserTypes, late AddType/AddRule, "+fmt.Sprint(NDocs())+" documents incl. malformed / trailing bytes (Check/Len/NextLexeme, Check before Validate on one object), 6 enum rules, 6 regex types; type, rule and document "+
 			"objects are shared between schemas of a history; every result is compared with the same operation on fresh objects (same "+
-			"AddType/AddRule prefix), handed-out values are re-read at the end; whole run repeated in-process and in 3 child processes. "+
+			"AddType/AddRule prefix), every handed-out value (example bytes, AST, error value, used-type slice, enum values, lexeme) is deep-copied at hand-out and re-read after EVERY later call (live and fresh-object) and at the end; whole run repeated in-process and in 3 child processes. "+
 			"Non-trivial = some object is the target of >= 2 non-set-up operations or the argument of >= 2 operations")
 	// diffs are buffered so that unclassified ones are reported first (the
 	// report keeps the first 25 only)
